@@ -13,6 +13,7 @@ from .runner import guarded, hyp_run
 
 PROP = "C05"
 LEVEL = "exploration"
+EVALUATION_COUNTER = "tree_evaluations"
 RULE = (
     "expression texts (integer-heavy grammar derivations incl. large literals and powers, rule templates, equations) "
     "parsed by the parser or built through the public constructors (one-operand nodes on either side), x assignments "
@@ -315,6 +316,7 @@ def check_eval(ctx, case):
 
 def check_tree_eval(ctx, case, root, env, text):
     """All obligations of C05 on one tree and one assignment."""
+    ctx.count("tree_evaluations")
     try:
         int_feasible(root, env)
     except Infeasible:
